@@ -342,6 +342,12 @@ pub fn run(_tier: &str) -> Report {
             if format!("{:?}", verify_event(&keys, &u, &rules)) != format!("{:?}", verify_event(&keys, &o, &rules)) {
                 fail(&mut f_unsigned, d("verify_event depends on `unsigned`"));
             }
+            // ... however big it is (the size limit is about the event without `unsigned`)
+            let mut ubig = o.clone();
+            ubig.insert("unsigned".to_owned(), CanonicalJsonValue::Object(obj(json!({"prev_content": {"body": "a".repeat(70_000)}, "age": 1}))));
+            if format!("{:?}", verify_event(&keys, &ubig, &rules)) != format!("{:?}", verify_event(&keys, &o, &rules)) {
+                fail(&mut f_unsigned, d("verify_event depends on the size of `unsigned`"));
+            }
             // changing a hashed field that redaction strips -> Signatures
             let mut stripped = o.clone();
             stripped.insert("x.not.kept".to_owned(), CanonicalJsonValue::Bool(true));
